@@ -86,7 +86,7 @@ func genC08(t *rapid.T, kind string) *c08Case {
 		return c
 	}
 	n := rapid.IntRange(3, 10).Draw(t, "steps")
-	ops := []string{"lock", "lock", "unlock", "unlockforged", "unlockstale", "unlocktwice", "lease", "leaseforged", "leasestale", "waitexpire"}
+	ops := []string{"lock", "lock", "unlock", "unlockforged", "unlockstale", "unlocktwice", "lease", "leaseforged", "leasestale", "waitexpire", "leaserace"}
 	for i := 0; i < n; i++ {
 		s := c08Step{Op: rapid.SampledFrom(ops).Draw(t, "op"), Path: rapid.IntRange(1, 5).Draw(t, "path"), Pick: rapid.IntRange(0, 2).Draw(t, "pick")}
 		if i == 0 {
@@ -431,6 +431,83 @@ func runC08(c *c08Case) (v *vcommon.Violation, nontrivial, inconclusive bool) {
 			} else {
 				stale = append(stale, cur.token)
 				cur = nil
+			}
+		case "leaserace":
+			// The holder's Lease has validated its token and is held there (hook lock.afterGet); the holder's Unlock
+			// is issued meanwhile. Either the Unlock waits for the Lease (both then succeed, in that order), or it
+			// overtakes it: then the lock is free, another client takes it without a timeout, and the Lease - whose
+			// token is not the holder's any more - must fail with no-such-lock and leave the new holder's lock alone.
+			if cur == nil || !certainlyHeld(now()+int64(400*time.Millisecond)) {
+				continue
+			}
+			tok := cur.token
+			gate, inLease := make(chan struct{}), make(chan struct{}, 1)
+			var once sync.Once
+			verifhook.Set("lock.afterGet", func(args ...string) {
+				if len(args) >= 2 && args[1] == key {
+					first := false
+					once.Do(func() { first = true })
+					if first {
+						inLease <- struct{}{}
+						<-gate
+					}
+				}
+			})
+			leaseRes := make(chan vRes, 1)
+			go func() { leaseRes <- pc.lease(ctx, key, tok, 150) }()
+			select {
+			case <-inLease:
+			case <-time.After(2 * time.Second):
+				close(gate)
+				<-leaseRes
+				verifhook.Set("lock.afterGet", nil)
+				return nil, nontrivial, true
+			}
+			unlockRes := make(chan vRes, 1)
+			other := &pathClient{cl: cl, dmap: name, path: s.Path%5 + 1, pick: s.Pick + 1}
+			go func() { unlockRes <- other.unlock(ctx, key, tok) }()
+			var u vRes
+			overtook := false
+			select {
+			case u = <-unlockRes:
+				overtook = true
+			case <-time.After(150 * time.Millisecond):
+			}
+			var b vRes
+			if overtook && u.Err == "" {
+				b = other.lock(ctx, key, 0, 20) // a new holder, without timeout
+			}
+			close(gate)
+			l := <-leaseRes
+			if !overtook {
+				u = <-unlockRes
+			}
+			verifhook.Set("lock.afterGet", nil)
+			record(l)
+			if strings.HasPrefix(l.Err, "other:") || strings.HasPrefix(u.Err, "other:") || strings.HasPrefix(b.Err, "other:") {
+				return nil, nontrivial, true
+			}
+			nontrivial = true
+			stale = append(stale, tok)
+			cur = nil
+			if overtook && u.Err == "" {
+				if l.Err != "nosuchlock" {
+					return bad("lease-after-own-unlock", "the holder's Unlock completed while its Lease was in progress; the Lease, whose token was no longer the holder's, returned %q, want no-such-lock", l.Err), nontrivial, false
+				}
+				if b.Err == "" {
+					cur = &holder{token: b.Token}
+					if raw := readRaw(); !raw.present || !bytes.Equal(raw.value, b.Token) || raw.ttl != 0 {
+						return bad("lease-changed-other-lock", "a lock taken without timeout after the previous holder's Unlock is stored as %v after that holder's late Lease", raw), nontrivial, false
+					}
+				}
+			} else {
+				// the Unlock waited for the Lease: both are the holder's own calls on a held lock
+				if l.Err != "" {
+					return bad("lease-right-token", "Lease with the holder's token failed: %s", l.Err), nontrivial, false
+				}
+				if u.Err != "" {
+					return bad("unlock-right-token", "Unlock with the holder's token (after its Lease) failed: %s", u.Err), nontrivial, false
+				}
 			}
 		case "waitexpire":
 			if cur == nil || cur.hi == 0 {
